@@ -125,4 +125,159 @@ void ut_f_to_timespec(double t, struct timespec *ts)
 }
 #endif /* XV_TD_TM */
 
+/* ==================================================================================================================== */
+#ifdef XV_TD_DNS
+#include <ares.h>
+#include <sys/time.h>
+#include <netinet/in.h>
+/* TRUSTED(c-ares 1.18) -- ASSUMPTIONS of the model (everything else is nondeterministic):
+ *  A1  no out-of-memory inside c-ares (ARES_ENOMEM is never reported; XCM aborts on OOM by design) and the library has been
+ *      initialised (ares_library_init in the constructor): ares_init_options returns ARES_SUCCESS or ARES_EFILE.
+ *  A2  the callback registered with ares_getaddrinfo is made EXACTLY ONCE: synchronously inside ares_getaddrinfo (literal
+ *      addresses, hosts-file hits, malformed names), or inside a later ares_process_fd/ares_process, or -- status
+ *      ARES_EDESTRUCTION, no result -- inside ares_destroy.  With ANY status other than ARES_ENOMEM; with ARES_SUCCESS comes a
+ *      result list (the functions that read the list, get_ips/query_cb, are verified against lists of ANY length 0..XV_NODES_MAX
+ *      built by their harnesses; here only the list head exists because query_cb is replaced by its contract).
+ *  A3  ares_getsock reports pairwise different, non-negative descriptors, none of them the timer manager's timerfd or any
+ *      other descriptor that is registered with the xpoll instance at that moment (update_xpoll has dropped the query's own
+ *      registrations before it asks; what is still registered belongs to somebody else).
+ *  A4  ares_destroy / ares_freeaddrinfo / ares_timeout / ares_getsock leave errno alone; ares_getaddrinfo and ares_process*
+ *      do socket I/O: errno is ARBITRARY afterwards.
+ *  c-ares' own descriptors are not in the descriptor table of env/fd.h (the library under proof never creates or closes them).
+ */
+struct ares_channeldata { int xv_live; };
+static void query_cb(void *arg, int status, int timeouts, struct ares_addrinfo *result);
+static int xv_ares_any_status(void)
+{
+    int st = nondet_int();
+    __CPROVER_assume(st >= ARES_SUCCESS && st <= ARES_ESERVICE && st != ARES_ENOMEM && st != ARES_EDESTRUCTION);
+    return st;
+}
+/* the callback of the outstanding lookup is made now */
+static void xv_ares_complete(int status)
+{
+    struct ares_addrinfo *res = NULL;
+    if (status == ARES_SUCCESS) {
+        res = malloc(sizeof(struct ares_addrinfo));
+        __CPROVER_assume(res != NULL);
+        xv_ar.results++;
+    }
+    xv_ar.pending = 0; xv_ar.cb_n++; xv_ar.cb_status = status;
+    query_cb(xv_ar.arg, status, nondet_int(), res);
+}
+int ares_init_options(ares_channel *channelptr, struct ares_options *options, int optmask)
+{
+    __CPROVER_assert(__CPROVER_w_ok(channelptr, sizeof(*channelptr)) && __CPROVER_r_ok(options, sizeof(*options)), "ares_init_options() arguments accessible");
+    xv_ar.inits++; xv_ar.optmask = optmask; xv_ar.tries = options->tries; xv_ar.timeout_ms = options->timeout;
+    if (nondet_bool())
+        return ARES_EFILE;
+    struct ares_channeldata *c = malloc(sizeof(struct ares_channeldata));
+    __CPROVER_assume(c != NULL);
+    c->xv_live = 1;
+    *channelptr = c;
+    xv_ar.channels++; xv_ar.pending = 0;
+    return ARES_SUCCESS;
+}
+#define XV_ARES_USE(ch, what) __CPROVER_assert(__CPROVER_rw_ok(ch, sizeof(struct ares_channeldata)) && (ch)->xv_live == 1, what ": a live channel")
+void ares_getaddrinfo(ares_channel channel, const char *name, const char *service, const struct ares_addrinfo_hints *hints,
+                      ares_addrinfo_callback callback, void *arg)
+{
+    XV_ARES_USE(channel, "ares_getaddrinfo()");
+    __CPROVER_assert(name != NULL && __CPROVER_r_ok(name, 1), "ares_getaddrinfo() name readable");
+    __CPROVER_assert(callback == query_cb, "ares_getaddrinfo() callback is query_cb");
+    xv_ar.gai_n++; xv_ar.arg = arg;
+    xv_errno = nondet_int();
+    if (nondet_bool()) xv_ares_complete(xv_ares_any_status());
+    else xv_ar.pending = 1;
+}
+void ares_process_fd(ares_channel channel, ares_socket_t read_fd, ares_socket_t write_fd)
+{
+    XV_ARES_USE(channel, "ares_process_fd()");
+    xv_ar.process_fd_n++; xv_ar.pfd_r = read_fd; xv_ar.pfd_w = write_fd;
+    if ((read_fd != ARES_SOCKET_BAD && read_fd == xv_ar.gs_fd) || (write_fd != ARES_SOCKET_BAD && write_fd == xv_ar.gs_fd)) xv_ar.pfd_j++;
+    xv_errno = nondet_int();
+    if (xv_ar.pending && nondet_bool()) xv_ares_complete(xv_ares_any_status());
+}
+void ares_process(ares_channel channel, fd_set *read_fds, fd_set *write_fds)
+{
+    XV_ARES_USE(channel, "ares_process()");
+    xv_ar.process_n++;
+    xv_errno = nondet_int();
+    if (xv_ar.pending && nondet_bool()) xv_ares_complete(xv_ares_any_status());
+}
+/* slot i is in use iff one of its two bits is set in the mask; (1u << 31 is the WRITABLE bit of slot 15) */
+#define XV_GS_R(mask, i) (((mask) >> (i)) & 1)
+#define XV_GS_W(mask, i) (((mask) >> ((i) + ARES_GETSOCK_MAXNUM)) & 1)
+#define XV_GS_USED(mask, i) (XV_GS_R(mask, i) | XV_GS_W(mask, i))
+int ares_getsock(ares_channel channel, ares_socket_t *socks, int numsocks)
+{
+    XV_ARES_USE(channel, "ares_getsock()");
+    __CPROVER_assert(numsocks == ARES_GETSOCK_MAXNUM && __CPROVER_w_ok(socks, sizeof(ares_socket_t) * ARES_GETSOCK_MAXNUM), "ares_getsock() array of 16 descriptors writeable");
+    xv_ar.getsock_n++;
+    int mask = nondet_int();
+    unsigned same = 0;
+#define XV_GS_SLOT(i) { int fd_ = nondet_int(); __CPROVER_assume(fd_ >= 0 && fd_ != xv_tmg.mgr_fd && (fd_ != xv_rf || !xv_xr.rf_live)); \
+                        if (XV_GS_USED(mask, i)) { socks[i] = fd_; if (fd_ == xv_rf) same++; } }
+    XV_GS_SLOT(0) XV_GS_SLOT(1) XV_GS_SLOT(2) XV_GS_SLOT(3) XV_GS_SLOT(4) XV_GS_SLOT(5) XV_GS_SLOT(6) XV_GS_SLOT(7)
+    XV_GS_SLOT(8) XV_GS_SLOT(9) XV_GS_SLOT(10) XV_GS_SLOT(11) XV_GS_SLOT(12) XV_GS_SLOT(13) XV_GS_SLOT(14) XV_GS_SLOT(15)
+    __CPROVER_assume(same <= 1);        /* A3: xv_rf is ANY descriptor, so "at most one slot holds xv_rf" = pairwise different */
+    xv_ar.gs_mask = mask;
+    if (xv_j >= 0 && xv_j < ARES_GETSOCK_MAXNUM) xv_ar.gs_fd = socks[xv_j];
+    return mask;
+}
+struct timeval *ares_timeout(ares_channel channel, struct timeval *maxtv, struct timeval *tv)
+{
+    XV_ARES_USE(channel, "ares_timeout()");
+    __CPROVER_assert(__CPROVER_w_ok(tv, sizeof(*tv)), "ares_timeout() tv writeable");
+    xv_ar.timeout_n++;
+    if (nondet_bool()) { xv_ar.to_null = maxtv == NULL; xv_ar.to_ptr = maxtv; return maxtv; }
+    long s = nondet_long(), us = nondet_long();
+    __CPROVER_assume(s >= 0 && s <= 0x7fffffffL && us >= 0 && us <= 999999L);
+    tv->tv_sec = s; tv->tv_usec = us;
+    xv_ar.to_null = 0; xv_ar.to_sec = s; xv_ar.to_usec = us; xv_ar.to_ptr = tv;
+    return tv;
+}
+void ares_destroy(ares_channel channel)
+{
+    XV_ARES_USE(channel, "C08 ares_destroy() (destroyed exactly once)");
+    xv_ar.destroys++; xv_ar.channels--;
+    if (xv_ar.pending) {
+        xv_ar.pending = 0; xv_ar.cb_n++; xv_ar.cb_status = ARES_EDESTRUCTION;
+        query_cb(xv_ar.arg, ARES_EDESTRUCTION, 0, NULL);
+    }
+    channel->xv_live = 0;
+    free(channel);
+}
+/* (the nodes of the list are c-ares' business: only the head is released in the model) */
+void ares_freeaddrinfo(struct ares_addrinfo *ai)
+{
+    __CPROVER_assert(ai != NULL && xv_ar.results > 0, "C08 ares_freeaddrinfo() of a result list handed to the callback (given back exactly once)");
+    xv_ar.free_n++; xv_ar.results--;
+    free(ai);
+}
+const char *ares_strerror(int code) { return "?"; }
+
+/* TRUSTED(common/util.c) ut_timeval_to_f: ANY non-negative finite number of seconds (the real text divides tv_usec by 1e6:
+ * a double division; the value itself plays no role in what is proved); ghost record of the timeval it was given */
+double ut_timeval_to_f(const struct timeval *tv)
+{
+    __CPROVER_assert(__CPROVER_r_ok(tv, sizeof(*tv)), "ut_timeval_to_f() argument readable");
+    double r = nondet_double();
+    __CPROVER_assume(r >= 0 && r <= 1e10);
+    xv_ar.tv2f_n++; xv_ar.tv2f_sec = tv->tv_sec; xv_ar.tv2f_usec = tv->tv_usec; xv_ar.tv2f_ret = r;
+    return r;
+}
+/* TRUSTED(common/util.c, libc strdup) ut_strdup: a heap copy (never fails); the text is not modelled (only logging and c-ares read it) */
+char *ut_strdup(const char *str)
+{
+    __CPROVER_assert(str != NULL && __CPROVER_r_ok(str, 1), "ut_strdup() argument readable");
+    size_t n = nondet_size_t();
+    __CPROVER_assume(n >= 1 && n <= 256);
+    char *p = malloc(n);
+    __CPROVER_assume(p != NULL);
+    p[n - 1] = '\0';
+    return p;
+}
+#endif /* XV_TD_DNS */
+
 #endif
